@@ -3,6 +3,7 @@ import numpy as np
 from vf import core
 from vf.ref import defs, dims, names
 from vf.gen import c14_edits
+from vf.monitors import c14_stale
 from .common import all_names, chunks, udim
 
 RULE = ("exhaustive: every name in unyt's name table, every Unit attribute of unyt.unit_symbols and of the top-level namespace, "
@@ -17,7 +18,12 @@ RULE = ("exhaustive: every name in unyt's name table, every Unit attribute of un
         "symbols, look-ups, namespace builds, deepcopy/pickle of the registry in between); one evaluation = one documented name "
         "not involving X read by string or from an add_symbols namespace of the edited registry and compared with its documented "
         "reading (value <=1 ulp, dimension, offset, printed symbol), or X / <prefix>+X compared with the history model; "
-        "distinct = (route, relation, edited symbols, executed word)")
+        "distinct = (route, relation, edited symbols, executed word). "
+        "Resolution after edits: for every table symbol S x edit script (modify / add over it / add with another dimension / remove / "
+        "remove+add / modify-resolve-modify / add as not prefixable; quick: modify, remove and two others in rotation) on a fresh "
+        "registry, every documented spelling that denotes S (symbol, alias, prefixed, word-prefixed, title-case; plain, squared and "
+        "in a product) resolved by string before the edit (warm) or only after it (cold) must denote factor x the value the edited "
+        "table defines (<=2 ulp, dimension) or be refused when the table no longer defines it, judged by the sequential registry model")
 EXHAUSTIVE = True
 ASSUMPTIONS = ("the independent resolver vf/ref/names.py (symbol/alias > prefix split > title-case of a split) states the intended reading",
                "unyt's default_unit_name_alternatives is the list of documented alternative spellings",
@@ -31,7 +37,10 @@ ASSUMPTIONS = ("the independent resolver vf/ref/names.py (symbol/alias > prefix 
                "edited registries: a user's symbol spelled like a listed name (d, in, as ...) is shadowed by the parser for its bare name; the bare name is not judged",
                "edited registries: JSON round trips are not part of the histories (from_json re-adds removed default symbols by design; C11/C12 matter)",
                "edited registries: when the table value of a colliding name is exactly prefix x value of the edited symbol with the same dimension "
-               "(user's a = are, table ha) a violation is keyed prefix-collision-equal-value (listed finding: derived entries recognised by value)")
+               "(user's a = are, table ha) a violation is keyed prefix-collision-equal-value (listed finding: derived entries recognised by value)",
+               "resolution after edits: a spelling that also has a reading through another symbol is not required to be refused after remove(); "
+               "spellings unyt refuses on the unedited registry are left to the string batches; add(prefixable=False) over a prefixable symbol "
+               "must make its prefixed spellings unresolvable (same rule as the history model of the edited-registry part)")
 MIN_EVALS = 50000
 TIMEOUT = 600
 
@@ -50,6 +59,9 @@ def batches(tier, seed):
     nr = 6000 if tier == "thorough" else 600
     for i in range(nb):
         b.append(("edits-random/%d" % i, ("edits", c14_edits.random_histories(tier, core.rng(seed, "edits-random", i), nr // nb))))
+    sc = c14_stale.cases(tier, seed)
+    ns = 16 if tier == "thorough" else 8
+    b += [("stale/%d" % i, ("stale", sc[i::ns])) for i in range(ns)]
     return b
 
 
@@ -255,6 +267,8 @@ def worker(batch, rec):
     elif kind == "edits":
         from vf.monitors import c14_edits as edit_monitor
         edit_monitor.run(payload, rec, unyt)
+    elif kind == "stale":
+        c14_stale.run(payload, rec, unyt)
     elif kind == "double":
         i, n = payload
         tab = names.build()
@@ -287,7 +301,7 @@ def worker(batch, rec):
 DECIDING = ("same-symbol-evaluations", "unit_symbols_attrs", "toplevel_unit_attrs", "strings_with_multiple_readings",
             "edit_histories:enumerated", "edit_histories:enumerated-equal-value", "edit_histories:random",
             "edits_string_prefix_collision", "edits_string_unrelated", "edits_namespace_prefix_collision", "edits_namespace_unrelated",
-            "edits_edited_symbol", "edits_same_symbol", "edits_namespaces_built", "edits_equal_value_collisions")
+            "edits_edited_symbol", "edits_same_symbol", "edits_namespaces_built", "edits_equal_value_collisions") + c14_stale.COUNTERS
 
 
 def extra(tier, seed, results):
@@ -300,9 +314,11 @@ def extra(tier, seed, results):
     zero = [k for k in DECIDING if not c.get(k)]
     zero += ["edit:" + n for n in c14_edits.EDIT_NAME.values() if not c.get("edit:" + n)]
     zero += ["step:" + n for n in c14_edits.OTHER if not c.get("step:" + n)]
+    zero += ["stale_op:" + n for n in c14_stale.OPS if not c.get("stale_op:" + n)]
     pool = c14_edits.pool()
     cat = {"edited|%s|%s" % (e["level"], e["kind"]) for e in pool}
     cat |= {"edit:%s|%s|%s" % (n, e["kind"], e["level"]) for e in pool if e["level"] == "symbol" for op, n in c14_edits.EDIT_NAME.items()}
+    cat |= {"stale|" + o for o in c14_stale.OPS}
     sym_pairs = sum(len(e["collide"]) for e in pool if e["level"] == "symbol")
     if zero:
         raise core.Inconclusive("sub-monitors-saw-nothing:" + ",".join(zero))
